@@ -4,6 +4,9 @@
                        from the source).
   Props/C04Sim.lean  : stage 2, execution of the goto-machine = tree-walking interpreter
                        (proved for the `simple` fragment; the full statement is kept visible).
+  Props/C04Names.lean : the model resolves every flow-control and straight-line command by exactly
+                       the spellings the source registers (regenerated tables).
 -/
 import DuckModel.Props.C04Scan
 import DuckModel.Props.C04Sim
+import DuckModel.Props.C04Names
